@@ -5,6 +5,9 @@ shard: rec = per recipient [sk, wr, fail]   sk: 0 not subscribed to the type, 1 
                                             wr: in the select round's writable list
                                             fail: 0 healthy; 1 dies at its next sendall; 2 dies at the one after (payload half)
        mclass = "gen" (symbolic msg_type outside SPECIAL) | a concrete special type id (8, 33, 40..45)
+       origin = "mgr": the message in flight is one the manager itself originates (CLIENT_INFO about the sender module, through
+                send_client_info -> send_message -> forward_message) instead of a client's frame; mclass is then MT_CLIENT_INFO.
+                A write failure during it nests a second manager-originated message (CLIENT_CLOSED) inside the first.
 symbolic: msg_type (gen), dest_mod 0..200, src ids, module ids 0..199, per recipient: is_logger, subscribed to FAILED_MESSAGE,
           subscribed to CLIENT_CLOSED (the latter two only when not subscribed to ALL)
 """
@@ -59,12 +62,22 @@ def run(msg_type, dest_mod, src_mod, ids, lgs, fsubs, csubs, drops=(0, 0, 0)):
     exc = None
     with disable_message_validation():
         try:
-            mm.forward_message(sender, h, payload)
+            if sh("origin") == "mgr":
+                payload = ("mgr", sender.uid)
+                mm.send_client_info(sender)
+            else:
+                mm.forward_message(sender, h, payload)
         except Exception as e:
             import traceback
             exc = e
             e.args = (str(e) + " @ " + " <- ".join("%s:%d" % (f.name, f.lineno) for f in traceback.extract_tb(e.__traceback__)[-4:]),)
     return exc, mm, mods, payload
+
+
+def is_the_message(hd, p, payload):
+    if isinstance(payload, tuple):      # manager-originated CLIENT_INFO about module uid payload[1]
+        return hd["msg_type"] == cd.MT_CLIENT_INFO and hd["src_mod_id"] == 0 and p[2] is not None and W.pfield(p, "uid") == payload[1]
+    return p[1] is payload
 
 
 def subscribed(k, msg_type, fsubs, csubs):
@@ -100,7 +113,7 @@ def oracle(which, msg_type, dest_mod, src_mod, ids, lgs, fsubs, csubs, drops=(0,
 
     # --- the message itself (C14: "the other subscribers still receive the message")
     for k in range(n):
-        got = len([1 for hd, p in frames[k] if p[1] is payload])
+        got = len([1 for hd, p in frames[k] if is_the_message(hd, p, payload)])
         want = sub[k] and passes[k] and able[k] and healthy[k]
         if healthy[k] and got != (1 if want else 0):
             return False, "recipient %d: %d copies of the message, expected %d" % (k, got, 1 if want else 0)
@@ -155,6 +168,14 @@ def oracle(which, msg_type, dest_mod, src_mod, ids, lgs, fsubs, csubs, drops=(0,
                     if not (W.pfield(p, "mod_id") == ids[k] and W.pfield(p, "is_logger") == (1 if lgs[k] else 0)
                             and W.pfield(p, "is_unique") == 1 and W.pfield(p, "name") in (b"m%d" % k, ("m%d" % k).encode())):
                         return False, "CLIENT_CLOSED does not describe the departed module"
+        for j in range(n):
+            if not (healthy[j] and able[j]):
+                continue
+            for hd, p in frames[j]:
+                if hd["msg_type"] == CC and hd["src_mod_id"] == 0 and p[2] is not None:
+                    u = W.pfield(p, "uid")
+                    if not (1 <= u <= n and not alive[u - 1]):
+                        return False, "monitor %d got a CLIENT_CLOSED about a module that did not leave" % j
         if not W.inv_ok(mm):
             return False, "Inv broken after removal"
     return True, ""
@@ -167,6 +188,8 @@ def _pre(msg_type, dest_mod, src_mod, id0, id1, id2, lg0, lg1, lg2, f0, f1, f2, 
             return False
     elif msg_type != int(mc):
         return False
+    if sh("origin") == "mgr" and (dest_mod != 0 or src_mod != 0):
+        return False    # what the manager originates is addressed to everybody and comes from module 0
     rec = sh("rec")
     n = len(rec)
     # unused parameters pinned (no spurious paths)
